@@ -54,6 +54,9 @@ func VerifDirtyCacheEntry(v any) bool {
 	return ok && ce.val != nil && ce.val.isDirty()
 }
 
+// VerifStoreLock returns the address of the store's RWMutex (for verifLockHeld).
+func VerifStoreLock(rs *RelationService) any { return &rs.fs.mtx }
+
 func VerifLastKey(rs *RelationService) uint32 { return rs.fs.lastKey }
 
 // VerifTableRoot returns the file offset sys_pages records for table name (-1 if unknown).
